@@ -70,6 +70,18 @@ func (c *Ctx) Case(line, goOut, key string) {
 
 func (c *Ctx) Count(name string) { c.Dist[name]++ }
 
+// Debugf writes a human-readable line about the NEXT case to <out>/debug.txt when TMH_DEBUG is set.
+func (c *Ctx) Debugf(format string, args ...any) {
+	if os.Getenv("TMH_DEBUG") == "" {
+		return
+	}
+	f, err := os.OpenFile(filepath.Join(c.Out, "debug.txt"), os.O_APPEND|os.O_CREATE|os.O_WRONLY, 0o644)
+	if err == nil {
+		fmt.Fprintf(f, "%d\t"+format+"\n", append([]any{c.Evaluations}, args...)...)
+		f.Close()
+	}
+}
+
 func (c *Ctx) Violate(what, input string) {
 	if len(c.Violations) < 20 {
 		c.Violations = append(c.Violations, Violation{what, input})
